@@ -86,13 +86,13 @@ where
         complete: d.is_complete,
     };
     Obs {
-        post: root.post_order_iter::<S>().map(it).collect(),
-        rtl: root.rtl_post_order_iter::<S>().map(it).collect(),
-        pre: root.pre_order_iter::<S>().map(ix).collect(),
-        vpre: root.verbose_pre_order_iter::<S>(None).map(vi).collect(),
-        vcut: root.verbose_pre_order_iter::<S>(Some(md)).map(vi).collect(),
+        post: root.post_order_iter::<S>().take(RUNAWAY).map(it).collect(),
+        rtl: root.rtl_post_order_iter::<S>().take(RUNAWAY).map(it).collect(),
+        pre: root.pre_order_iter::<S>().take(RUNAWAY).map(ix).collect(),
+        vpre: root.verbose_pre_order_iter::<S>(None).take(RUNAWAY).map(vi).collect(),
+        vcut: root.verbose_pre_order_iter::<S>(Some(md)).take(RUNAWAY).map(vi).collect(),
         shared: root.is_shared_as::<S>(),
-        post_ptr: root.post_order_iter::<InternalSharing>().map(|d| ix(d.node)).collect(),
+        post_ptr: root.post_order_iter::<InternalSharing>().take(RUNAWAY).map(|d| ix(d.node)).collect(),
     }
 }
 
@@ -101,7 +101,7 @@ fn post_arc<S>(root: &Arc<CommitNode>, m: &HashMap<*const CommitNode, usize>) ->
 where
     S: SharingTracker<Arc<CommitNode>> + Default,
 {
-    Arc::clone(root).post_order_iter::<S>().map(|d| It { node: m[&Arc::as_ptr(&d.node)], index: d.index, l: d.left_index, r: d.right_index }).collect()
+    Arc::clone(root).post_order_iter::<S>().take(RUNAWAY).map(|d| It { node: m[&Arc::as_ptr(&d.node)], index: d.index, l: d.left_index, r: d.right_index }).collect()
 }
 
 fn one_real(ctx: &mut Ctx, c: &Case, md: usize) {
